@@ -186,6 +186,8 @@ func UseSites() []UseSite {
 		{Tag: "var m *Mock", Stmt: "var $v *{q}Mock; _ = $v", Kind: UKType, Type: "Mock", TONL: true},
 		{Tag: "var m = Mock{}", Stmt: "var $v = {q}Mock{}; _ = $v", Kind: UKType, Type: "Mock", TONL: true},
 		{Tag: "local struct field Mock", Stmt: "type $v struct{ f {q}Mock }", Kind: UKType, Type: "Mock", TONL: true},
+		{Tag: "local struct EMBEDDED field Mock", Stmt: "func() { type lw struct{ {q}Mock }; var w lw; _ = w.A }()", Kind: UKType, Type: "Mock", TONL: true, Core: true},
+		{Tag: "local struct EMBEDDED pointer field *Mock2", Stmt: "func() { type lw struct{ *{q}Mock2 }; var w lw; _ = w }()", Kind: UKType, Type: "Mock2", TONL: true},
 		{Tag: "funclit param Mock", Stmt: "_ = func(m {q}Mock) {}", Kind: UKType, Type: "Mock", TONL: true},
 		{Tag: "funclit result *Mock", Stmt: "_ = func() *{q}Mock { return nil }", Kind: UKType, Type: "Mock", TONL: true},
 		{Tag: "lit Mock2{}", Stmt: "_ = {q}Mock2{}", Kind: UKType, Type: "Mock2", TONL: true, Core: true},
@@ -432,7 +434,12 @@ func (m UseMix) ann(w *lineWriter, indent string, item int) {
 	}
 }
 
-func usePreludeD(w *lineWriter, m UseMix) {
+// SplitD reports whether package d declares Mock2 in a second, later-sorting file (zz_types.go) under this mix: the
+// package's annotations are then spread over two files, a function's before a type's.
+func (m UseMix) SplitD() bool { return m.AnnOrder == 1 || (m.Allow > 0 && m.Allow%2 == 0) }
+
+func usePreludeD(w0 *lineWriter, m UseMix, w2 *lineWriter) {
+	w := w0
 	chunk := func(f func()) func() { return f }
 	// a grouped import: ONE declaration holding two import specs, in front of the annotated declarations
 	w.add("import (")
@@ -458,6 +465,10 @@ func usePreludeD(w *lineWriter, m UseMix) {
 		w.add("")
 	})
 	tMock2 := chunk(func() {
+		if w2 != nil {
+			w = w2
+			defer func() { w = w0 }()
+		}
 		w.add("// Mock2 is another one.")
 		m.ann(w, "", ItMock2)
 		w.add("type Mock2 struct{ A int }")
@@ -468,8 +479,14 @@ func usePreludeD(w *lineWriter, m UseMix) {
 	tPlain := chunk(func() {
 		w.add("type Plain struct{ A int }")
 		w.add("")
-		w.add("type S struct{ K int }")
-		w.add("")
+		if w2 != nil {
+			// the receiver type of the annotated methods lives in the LATER file; the methods stay in this one
+			w2.add("type S struct{ K int }")
+			w2.add("")
+		} else {
+			w.add("type S struct{ K int }")
+			w.add("")
+		}
 		w.add("// S2 has methods with the same names as S's annotated ones, without annotations.")
 		w.add("type S2 struct{ K int }")
 		w.add("")
@@ -676,8 +693,14 @@ func RenderUse(s *UseSpec) *UseRendered {
 		}
 	}
 	w0 := files[0]
+	var dSecond *lineWriter // package d's second file when the uses are in d itself
 	if inD {
-		usePreludeD(w0, s.Mix)
+		if s.Mix.SplitD() {
+			dSecond = &lineWriter{}
+			dSecond.add("package d")
+			dSecond.add("")
+		}
+		usePreludeD(w0, s.Mix, dSecond)
 	}
 	w0.add("type Q struct{ K int }")
 	w0.add("")
@@ -875,8 +898,18 @@ func (s *S) ResetP() {}
 		wd := &lineWriter{}
 		wd.add("package d")
 		wd.add("")
-		usePreludeD(wd, s.Mix)
-		p.Pkgs = append(p.Pkgs, prog.Pkg{Path: PathD, Files: []prog.File{{Name: "a.go", Src: wd.b.String()}}})
+		var wd2 *lineWriter
+		if s.Mix.SplitD() {
+			wd2 = &lineWriter{}
+			wd2.add("package d")
+			wd2.add("")
+		}
+		usePreludeD(wd, s.Mix, wd2)
+		dFiles := []prog.File{{Name: "a.go", Src: wd.b.String()}}
+		if wd2 != nil {
+			dFiles = append(dFiles, prog.File{Name: "zz_types.go", Src: wd2.b.String()})
+		}
+		p.Pkgs = append(p.Pkgs, prog.Pkg{Path: PathD, Files: dFiles})
 		if s.Spell == SpThirdAlias {
 			p.Pkgs = append(p.Pkgs, prog.Pkg{Path: PathC, Files: []prog.File{{Name: "c.go",
 				Src: "package c\n\nimport \"ex.com/m/d\"\n\ntype AMock = d.Mock\ntype AMock2 = d.Mock2\n\nfunc Keep() {}\n"}}})
@@ -892,6 +925,9 @@ func (s *S) ResetP() {}
 			si.File = s.Pkg.Path + "/" + FileNames[i]
 			out.Sites = append(out.Sites, si)
 		}
+	}
+	if dSecond != nil {
+		pk.Files = append(pk.Files, prog.File{Name: "zz_types.go", Src: dSecond.b.String()})
 	}
 	p.Pkgs = append(p.Pkgs, pk)
 	out.Prog = p
